@@ -325,11 +325,43 @@ def _semantic(ctx, rid, repo):
         from ..alg import _PyRaise
         raise _PyRaise("TypeError")  # json.dumps on an object it cannot serialise
 
+    def ctor_copies(kind):
+        """does the REAL Workspace constructor deep-copy a specification of this kind (a plain document / a Workspace object)?
+        Decided by interpreting Workspace.__init__ (through the mixin into dict) with copy.deepcopy as a recorder."""
+        if kind in _copies_memo:
+            return _copies_memo[kind]
+        from ..objmodel import World as _W, dict_base
+        WSR = "src/pyhf/workspace.py"
+        wsc_ = repo.cls(WSR, "Workspace")
+        seen = []
+
+        def deep(a, k):
+            seen.append(a[0])
+            return copy.deepcopy(a[0]) if not isinstance(a[0], Instance) else a[0]
+
+        ww = _W({"__strict__": True, "deepcopy": deep, "__isinstance__": lambda v, cl: isinstance(v, Instance) and v.cls.name == getattr(cl, "name", None)},
+                module_env={"log": Obj("log"), "schema": Obj("schema"), "exceptions": Obj("exceptions"), "copy": Obj("copy"), "jsonpatch": Obj("jsonpatch")})
+        ww.add_foreign_base("dict", dict_base())
+        ww.add_class(repo.cls("src/pyhf/mixins.py", "_ChannelSummaryMixin")).add_class(wsc_)
+        doc = workspace()
+        first = ww.new(wsc_, [doc], {"validate": False})
+        if kind == "dict":
+            _copies_memo[kind] = any(x is doc for x in seen)
+        else:
+            del seen[:]
+            ww.new(wsc_, [first], {"validate": False})
+            _copies_memo[kind] = any(x is first for x in seen)
+        return _copies_memo[kind]
+
+    _copies_memo = {}
+
     class WsDict(dict):
-        """pyhf.Workspace: a validated deep copy of the document it is constructed from."""
+        """pyhf.Workspace: a validated copy of the document it is constructed from -- a DEEP copy exactly when the real
+        constructor (interpreted, see ctor_copies) deep-copies a specification of that kind."""
 
         def __init__(self, spec):
-            super().__init__(copy.deepcopy(dict(spec)))
+            deep_ = ctor_copies("workspace" if isinstance(spec, WsDict) else "dict")
+            super().__init__(copy.deepcopy(dict(spec)) if deep_ else dict(spec))
             self.built_from = canon(spec, True)
 
     def mk_world():
@@ -358,8 +390,11 @@ def _semantic(ctx, rid, repo):
         def jp_apply(inst, a, k):
             doc = a[0]
             inplace = k.get("in_place", a[1] if len(a) > 1 else False)
-            tgt = doc if inplace is True else copy.deepcopy(doc)
+            tgt = doc if inplace is True else copy.deepcopy(doc)  # jsonpatch copies the document (keeping its class) ...
             tgt["__patched_by__"] = inst.attrs["_metadata"]["name"]
+            for op_ in inst.attrs["patch"]:
+                if isinstance(op_, dict) and isinstance(op_.get("value"), (dict, list)):
+                    tgt["__added__"] = op_["value"]  # ... and inserts an operation's value BY REFERENCE
             if isinstance(tgt.get("channels"), list) and tgt["channels"] and isinstance(tgt["channels"][0], dict):
                 tgt["channels"][0]["__patched__"] = True  # real patches edit NESTED containers: a shallow copy shares them
             return tgt
@@ -376,7 +411,7 @@ def _semantic(ctx, rid, repo):
         return {"metadata": {"references": {}, "description": "d", "digests": dict(digests or {"sha256": "X"}), "labels": ["x", "y"]}, "patches": patches, "version": "1.0.0"}
 
     errs = (Undecided, KeyError, TypeError, ValueError, IndexError, AttributeError)
-    good = [pspec("p_empty", [1, 2], []), pspec("p1", [3, 4], [{"op": "add"}]), pspec("name", [5, 6], [{"op": "replace"}])]
+    good = [pspec("p_empty", [1, 2], []), pspec("p1", [3, 4], [{"op": "add", "path": "/channels/0/samples/1", "value": {"name": "added_sample", "data": [Poly.atom("a0")], "modifiers": []}}]), pspec("name", [5, 6], [{"op": "replace"}])]
     # ---- lookup
     try:
         w, _ = mk_world()
@@ -484,6 +519,22 @@ def _semantic(ctx, rid, repo):
                 ctx.holds(rid, f"{PS}::PatchSet.apply [foreign workspace]", "refused with PatchSetVerificationError")
             else:
                 ctx.violated(rid, psc.methods["apply"], "apply on a foreign workspace", f"raises {e.exc_name}")
+        # HISTORY: the background is a Workspace OBJECT; the result of a first apply is edited in place; the patch set is used again
+        try:
+            bg = WsDict(workspace())
+            first_res = w.call_method(ps, "apply", [bg, "p1"])
+            stored_before = canon(ps.attrs["_patches"][1].attrs["patch"] if isinstance(ps.attrs.get("_patches"), list) else None, True) if isinstance(ps.attrs.get("_patches"), list) else None
+            if isinstance(first_res, dict) and isinstance(first_res.get("__added__"), dict):
+                first_res["__added__"]["data"].append(Poly.atom("edited_by_the_caller"))
+                first_res["__added__"]["name"] = "renamed_by_the_caller"
+            second_res = w.call_method(ps, "apply", [WsDict(workspace()), "p1"])
+            added2 = second_res.get("__added__") if isinstance(second_res, dict) else None
+            if not (isinstance(added2, dict) and added2.get("name") == "added_sample" and [str(x) for x in added2.get("data", [])] == ["a0"]):
+                ctx.violated(rid, psc.methods["apply"], "apply after the caller edited an earlier result in place", "the workspace returned by apply() shares containers with the patch stored in the patch set (the background was a Workspace object, which the constructor does not copy again): editing the result rewrites the patch, and every later apply() of it returns the edited content", expected="the background plus the JSON patch as recorded", found=str(canon(added2, True))[:160])
+            else:
+                ctx.holds(rid, f"{PS}::PatchSet.apply [background a Workspace object; first result edited in place; applied again]", "the second result carries the patch as recorded")
+        except RaisedInFragment as e:
+            ctx.violated(rid, psc.methods["apply"], "apply on a Workspace object", f"raises {e.exc_name}")
         # HISTORY: the object that was applied successfully is edited in place and applied again
         try:
             src["channels"][0]["samples"][0]["data"][0] = Poly.atom("n_edited_after_apply")
